@@ -286,3 +286,67 @@ def swapped_arguments(rep: Report, rule: str, idx: Index, funcs: Iterable[FuncIn
                 i, j, a, b = swapped[0]
                 rep.bad(rule, f"{f.short}: arguments of {nm}() match its parameter names position by position", f.loc(c), construct=f"{nm}({', '.join(x or '…' for x in names)}) vs parameters ({', '.join(params)})", detail=f"`{a}` is passed for parameter `{params[i]}` and `{b}` for `{params[j]}`: two arguments are swapped", function=f.qualname)
     return n
+
+
+# ----------------------------------------------------------------------------- T24 memo key adequacy (function-level caches)
+def function_caches(f: FuncInfo) -> List[Tuple[str, ast.AST, ast.AST]]:
+    """(cache field, key expression, store node) for `self.<cache>[key] = ...` stores in f whose cache is also
+    looked up in f (`self.<cache>.get(key)`, `key in self.<cache>`, `self.<cache>[key]` load)."""
+    stores = []
+    for a in walk_no_nested(f.node):
+        if isinstance(a, ast.Assign):
+            for t in a.targets:
+                if isinstance(t, ast.Subscript) and isinstance(t.value, ast.Attribute) and isinstance(t.value.value, ast.Name) and t.value.value.id == "self":
+                    stores.append((t.value.attr, t.slice, a))
+    out = []
+    for fld, key, a in stores:
+        looked_up = False
+        for n in walk_no_nested(f.node):
+            if isinstance(n, ast.Call) and isinstance(n.func, ast.Attribute) and n.func.attr == "get" and norm(n.func.value) == f"self.{fld}":
+                looked_up = True
+            if isinstance(n, ast.Compare) and len(n.ops) == 1 and isinstance(n.ops[0], (ast.In, ast.NotIn)) and norm(n.comparators[0]) == f"self.{fld}":
+                looked_up = True
+        # a memo: the looked-up entry is what the function returns on a hit
+        returns_hit = False
+        hit_vars = {norm(x.targets[0]) for x in walk_no_nested(f.node) if isinstance(x, ast.Assign) and isinstance(x.value, ast.Call) and isinstance(x.value.func, ast.Attribute) and x.value.func.attr == "get" and norm(x.value.func.value) == f"self.{fld}"}
+        for r in walk_no_nested(f.node):
+            if isinstance(r, ast.Return) and r.value is not None:
+                if norm(r.value) in hit_vars or (isinstance(r.value, ast.Subscript) and norm(r.value.value) == f"self.{fld}"):
+                    returns_hit = True
+        if looked_up and returns_hit:
+            out.append((fld, key, a))
+    return out
+
+
+def memo_key_adequacy(rep: Report, rule: str, funcs: Iterable[FuncInfo]) -> int:
+    """T24: a function that memoises its result in a dictionary of `self` must key the entry by every parameter
+    the result depends on."""
+    from .dataflow import DefUse
+
+    n = 0
+    for f in funcs:
+        caches = function_caches(f)
+        if not caches:
+            continue
+        params = [p for p in f.params() if p not in ("self", "cls")]
+        if not params:
+            continue
+        cfg = cfg_of(f)
+        du = DefUse(cfg)
+        seen = set()
+        for fld, key, store in caches:
+            if fld in seen:
+                continue
+            seen.add(fld)
+            n += 1
+            rep.note_function(f.qualname)
+            nodes = cfg.nodes_for(store)
+            key_names: Set[str] = set()
+            if nodes:
+                for ch in du.sources(key, nodes[0]):
+                    key_names.add(ch[0].rstrip("()"))
+            key_names |= {x.id for x in ast.walk(key) if isinstance(x, ast.Name)}
+            used = {x.id for x in walk_no_nested(f.node) if isinstance(x, ast.Name) and isinstance(x.ctx, ast.Load) and x.id in params}
+            missing = sorted(p for p in used if p not in key_names)
+            rep.check(not missing, rule, f"{f.short}: cache self.{fld} is keyed by every parameter the result depends on", f.loc(store), construct=f"self.{fld}[{norm(key)}] in {f.short}({', '.join(params)})", detail="" if not missing else f"the entry is keyed by `{norm(key)}` only, but the function also reads {missing}: a later call with another value of {missing} gets the result computed for the first one", function=f.qualname)
+    return n
